@@ -80,6 +80,16 @@ let run_line (line : string) : string =
          what the prompt reads from standard input *)
       let env = if envtok = "U" then None else Some (bytes_of_hex envtok) in
       hex_of_bytes (startup_password (Stdlib.List.map bytes_of_hex ps) env (bytes_of_hex stdinhex))
+  | "CS" :: os ->
+      (* main() of iodine: -L n / -I n / -m n / -r in command-line order ("L:n" "I:n" "m:n" "r") *)
+      let opt (t : string) : copt =
+        if t = "r" then Or else
+        let v = z_of_int (int_of_string (String.sub t 2 (String.length t - 2))) in
+        match t.[0] with 'L' -> OL v | 'I' -> OI v | _ -> Om v in
+      let s = csettings_of (Stdlib.List.map opt os) in
+      if not (fragsize_accepted s) then "REJECT" else
+      Printf.sprintf "lazy=%d selecttimeout=%d raw=%d autofrag=%d fragsize=%d" (int_of_z s.s_lazy) (int_of_z s.s_timeout)
+        (if s.s_raw then 1 else 0) (if s.s_autofrag then 1 else 0) (int_of_z s.s_fragsize)
   | "ML" :: ms ->
       (* main() of iodine: the hostname-length limit from the -M arguments (in order) *)
       string_of_int (int_of_z (startup_maxlen (Stdlib.List.map (fun m -> z_of_int (int_of_string m)) ms)))
